@@ -75,6 +75,8 @@ CONFIGS = {
     "sim_write": {"Keys": [1, 2, 3], "Hashes": [1, 2, 3], "MaxOps": 10, "BufCap": 2, "InitMaxCost": 3, "MaxCosts": [3], "MaxGets": 3},
     "sim_cost": {"Keys": [1, 2, 3, 4], "Hashes": [1, 2, 3, 4], "Clients": [1, 2], "MaxOps": 12, "Ops": ["set", "del", "get", "maxcost", "wait"],
                  "BufCap": 3, "Costs": [1, 2, 3], "InitMaxCost": 4, "MaxCosts": [4, 6], "MaxGets": 4},
+    "sim_costfn": {"Keys": [1, 2, 3], "Hashes": [1, 2, 3], "Clients": [1, 2], "MaxOps": 9, "Ops": ["set", "del", "get", "wait"],
+                   "BufCap": 2, "Costs": [0, 3, 60], "CostFn": 2, "ItemSize": 56, "InitMaxCost": 175, "MaxCosts": [175], "MaxGets": 3},
     "sim_ttl": {"Keys": [1, 2], "Hashes": [1, 2], "Clients": [1, 2], "MaxOps": 6, "Ops": ["set", "del", "wait", "get", "gettl", "iter"],
                 "BufCap": 2, "Costs": [1], "InitMaxCost": 20, "MaxCosts": [20], "TTLs": [0, 1, 4], "MaxTime": 7},
     "sim_handoff": {"Keys": [1, 2], "Hashes": [1, 2], "Clients": [1, 2, 3], "MaxOps": 8, "Ops": ["set", "del", "wait", "clear", "get"],
@@ -104,7 +106,7 @@ PLAN = {
     "C02": {"mc": {"quick": ["write3"], "thorough": ["write4", "handoff4"]},
             "sim": [("sim_write", 400, 6000, 60), ("sim_ttl", 300, 4000, 60), ("sim_handoff", 200, 3000, 60)]},
     "C03": {"mc": {"quick": ["cost4", "costfn"], "thorough": ["cost5", "costfn", "write5_view"]},
-            "sim": [("sim_cost", 600, 8000, 70), ("sim_write", 200, 3000, 60)]},
+            "sim": [("sim_cost", 500, 8000, 70), ("sim_costfn", 250, 3000, 60), ("sim_write", 150, 3000, 60)]},
     "C04": {"mc": {"quick": ["write3", "handoff3", "refuse4"], "thorough": ["write4", "handoff4", "refuse4", "ttl3"]},
             "sim": [("sim_write", 300, 4000, 60), ("sim_handoff", 300, 4000, 60), ("sim_refuse", 200, 3000, 60), ("sim_ttl", 200, 3000, 60)]},
     "C05": {"mc": {"quick": ["write3"], "thorough": ["write4", "handoff4"]},
@@ -124,7 +126,7 @@ PLAN = {
     "C15": {"mc": {"quick": ["handoff3", "close3"], "thorough": ["handoff4", "close4"]},
             "sim": [("sim_close", 400, 6000, 60), ("sim_clear1", 300, 4000, 60), ("sim_handoff", 200, 3000, 60)]},
     "C17": {"ring": True, "mc": {"quick": ["write3", "cost4"], "thorough": ["write4", "cost5", "handoff4"]},
-            "sim": [("sim_write", 300, 4000, 60), ("sim_cost", 300, 4000, 70), ("sim_handoff", 200, 3000, 60)]},
+            "sim": [("sim_write", 250, 4000, 60), ("sim_cost", 250, 4000, 70), ("sim_costfn", 150, 2000, 60), ("sim_handoff", 150, 3000, 60)]},
 }
 
 # ---- coverage goals (spec/cache/MCRistretto.tla, G_*): corner states every quick run must reach on the real cache.
